@@ -2,7 +2,7 @@ INIT MCInit
 NEXT MCNext
 CONSTANTS
   Impl = "fixed"
-  MaxLen = 2
+  MaxLen = 1
   Family = "all"
 INVARIANTS Safe
 CHECK_DEADLOCK FALSE
